@@ -120,7 +120,8 @@ theorem addLoop_eq (l : List (Nat × Int)) (bins acc : List Int)
           List.reverse_cons, List.append_assoc, List.singleton_append]
       · have e : Gen.cmsAddClampCmp.evalInt v Gen.int32Max = false := by
           simp [Gen.cmsAddClampCmp, Cmp.evalInt, h]
-        have h2 : ¬ v < Gen.int32Min := by omega
+        have h2 : ¬ v < (-2147483648 : Int) := by
+          have := hv0; simp only [Gen.int32Min] at this; omega
         simp only [addLoop, e, Bool.false_eq_true, if_false, h2, ih _ _ hv', List.foldl_cons,
           List.map_cons, clamp, h, List.reverse_cons, List.append_assoc, List.singleton_append]
 
